@@ -527,7 +527,16 @@ class Optimizer(Logger, Citable):
         mydata = self._observed.spectrum
         #myerror = self._observed.errorBar
 
+        # The model is only evaluated on the part of its native grid that
+        # the observation needs: the full extent of every bin, which for
+        # wide or overlapping bins reaches beyond the outermost bin centres
         obs_bins = self._observed.wavenumberGrid
+        try:
+            half_widths = np.abs(self._observed.binWidths)/2
+            obs_bins = np.sort(np.concatenate([obs_bins - half_widths,
+                                               obs_bins + half_widths]))
+        except NotImplementedError:
+            pass
 
         try:
             _, final_model, _, _ = self._binner.bin_model(
